@@ -5,22 +5,22 @@
 (* scratch directory with the list the harness built (c02 seeds).          *)
 (***************************************************************************)
 SeedsVal == <<
-  [id |-> 1, dec |-> "sfnt", len |-> 40, mlen |-> 40, ntab |-> 2, ngid |-> 3, ndict |-> 0],
-  [id |-> 2, dec |-> "header", len |-> 40, mlen |-> 28, ntab |-> 0, ngid |-> 0, ndict |-> 0],
-  [id |-> 3, dec |-> "cff", len |-> 9, mlen |-> 9, ntab |-> 0, ngid |-> 0, ndict |-> 2],
-  [id |-> 4, dec |-> "cmap", len |-> 12, mlen |-> 12, ntab |-> 0, ngid |-> 0, ndict |-> 0],
-  [id |-> 5, dec |-> "glyf", len |-> 10, mlen |-> 10, ntab |-> 0, ngid |-> 0, ndict |-> 0],
-  [id |-> 6, dec |-> "GSUB", len |-> 10, mlen |-> 10, ntab |-> 0, ngid |-> 0, ndict |-> 0],
-  [id |-> 7, dec |-> "GPOS", len |-> 10, mlen |-> 10, ntab |-> 0, ngid |-> 0, ndict |-> 0],
-  [id |-> 8, dec |-> "GDEF", len |-> 12, mlen |-> 12, ntab |-> 0, ngid |-> 0, ndict |-> 0],
-  [id |-> 9, dec |-> "coverage", len |-> 6, mlen |-> 6, ntab |-> 0, ngid |-> 0, ndict |-> 0],
-  [id |-> 10, dec |-> "coverset", len |-> 6, mlen |-> 6, ntab |-> 0, ngid |-> 0, ndict |-> 0],
-  [id |-> 11, dec |-> "classdef", len |-> 8, mlen |-> 8, ntab |-> 0, ngid |-> 0, ndict |-> 0],
-  [id |-> 12, dec |-> "name", len |-> 6, mlen |-> 6, ntab |-> 0, ngid |-> 0, ndict |-> 0],
-  [id |-> 13, dec |-> "head", len |-> 54, mlen |-> 54, ntab |-> 0, ngid |-> 0, ndict |-> 0],
-  [id |-> 14, dec |-> "hmtx", len |-> 40, mlen |-> 40, ntab |-> 0, ngid |-> 0, ndict |-> 0],
-  [id |-> 15, dec |-> "maxp", len |-> 6, mlen |-> 6, ntab |-> 0, ngid |-> 0, ndict |-> 0],
-  [id |-> 16, dec |-> "os2", len |-> 78, mlen |-> 78, ntab |-> 0, ngid |-> 0, ndict |-> 0],
-  [id |-> 17, dec |-> "post", len |-> 32, mlen |-> 32, ntab |-> 0, ngid |-> 0, ndict |-> 0],
-  [id |-> 18, dec |-> "kern", len |-> 18, mlen |-> 17, ntab |-> 0, ngid |-> 0, ndict |-> 0] >>
+  [id |-> 1, dec |-> "sfnt", len |-> 40, mlen |-> 40, ntab |-> 2, ngid |-> 3, ndict |-> 0, ncnt |-> 0, ncpair |-> 0],
+  [id |-> 2, dec |-> "header", len |-> 40, mlen |-> 28, ntab |-> 0, ngid |-> 0, ndict |-> 0, ncnt |-> 0, ncpair |-> 0],
+  [id |-> 3, dec |-> "cff", len |-> 9, mlen |-> 9, ntab |-> 0, ngid |-> 0, ndict |-> 2, ncnt |-> 0, ncpair |-> 0],
+  [id |-> 4, dec |-> "cmap", len |-> 12, mlen |-> 12, ntab |-> 0, ngid |-> 0, ndict |-> 0, ncnt |-> 0, ncpair |-> 0],
+  [id |-> 5, dec |-> "glyf", len |-> 10, mlen |-> 10, ntab |-> 0, ngid |-> 0, ndict |-> 0, ncnt |-> 0, ncpair |-> 0],
+  [id |-> 6, dec |-> "GSUB", len |-> 10, mlen |-> 10, ntab |-> 0, ngid |-> 0, ndict |-> 0, ncnt |-> 0, ncpair |-> 0],
+  [id |-> 7, dec |-> "GPOS", len |-> 10, mlen |-> 10, ntab |-> 0, ngid |-> 0, ndict |-> 0, ncnt |-> 3, ncpair |-> 2],
+  [id |-> 8, dec |-> "GDEF", len |-> 12, mlen |-> 12, ntab |-> 0, ngid |-> 0, ndict |-> 0, ncnt |-> 0, ncpair |-> 0],
+  [id |-> 9, dec |-> "coverage", len |-> 6, mlen |-> 6, ntab |-> 0, ngid |-> 0, ndict |-> 0, ncnt |-> 0, ncpair |-> 0],
+  [id |-> 10, dec |-> "coverset", len |-> 6, mlen |-> 6, ntab |-> 0, ngid |-> 0, ndict |-> 0, ncnt |-> 0, ncpair |-> 0],
+  [id |-> 11, dec |-> "classdef", len |-> 8, mlen |-> 8, ntab |-> 0, ngid |-> 0, ndict |-> 0, ncnt |-> 0, ncpair |-> 0],
+  [id |-> 12, dec |-> "name", len |-> 6, mlen |-> 6, ntab |-> 0, ngid |-> 0, ndict |-> 0, ncnt |-> 0, ncpair |-> 0],
+  [id |-> 13, dec |-> "head", len |-> 54, mlen |-> 54, ntab |-> 0, ngid |-> 0, ndict |-> 0, ncnt |-> 0, ncpair |-> 0],
+  [id |-> 14, dec |-> "hmtx", len |-> 40, mlen |-> 40, ntab |-> 0, ngid |-> 0, ndict |-> 0, ncnt |-> 0, ncpair |-> 0],
+  [id |-> 15, dec |-> "maxp", len |-> 6, mlen |-> 6, ntab |-> 0, ngid |-> 0, ndict |-> 0, ncnt |-> 0, ncpair |-> 0],
+  [id |-> 16, dec |-> "os2", len |-> 78, mlen |-> 78, ntab |-> 0, ngid |-> 0, ndict |-> 0, ncnt |-> 0, ncpair |-> 0],
+  [id |-> 17, dec |-> "post", len |-> 32, mlen |-> 32, ntab |-> 0, ngid |-> 0, ndict |-> 0, ncnt |-> 0, ncpair |-> 0],
+  [id |-> 18, dec |-> "kern", len |-> 18, mlen |-> 17, ntab |-> 0, ngid |-> 0, ndict |-> 0, ncnt |-> 0, ncpair |-> 0] >>
 =============================================================================
